@@ -444,7 +444,7 @@ def _visit_order(fi):
             if isinstance(n.value, ast.Name) and n.value.id == nodep:
                 order.append(n.attr)
             self.generic_visit(n)
-    for stmt in fi.node.body:
+    for stmt in fi.main_body:
         V().visit(stmt)
     return order
 
@@ -457,7 +457,7 @@ def _prescans_stores(fi):
         return any(isinstance(n, ast.Call) and norm(n.func) in ('ast.walk', 'walk') for n in ast.walk(fnode))
     selfn = fi.params()[0][0]
     nodep = fi.params()[0][1] if len(fi.params()[0]) > 1 else None
-    for i, stmt in enumerate(fi.node.body):
+    for i, stmt in enumerate(fi.main_body):
         if not isinstance(stmt, ast.For):
             continue
         it = stmt.iter
@@ -474,7 +474,7 @@ def _prescans_stores(fi):
                      and (n.func.attr == 'visit' or (vf.ci.methods.get(n.func.attr) is not None and vf.writes_namespace(vf.ci.methods[n.func.attr], 1)))
                      for n in ast.walk(stmt)) or \
             any(isinstance(n, ast.Subscript) and isinstance(n.ctx, ast.Store) and norm(n.value) == '%s.namespace' % selfn for n in ast.walk(stmt))
-        later_traversal = any(isinstance(n, ast.Call) and norm(n.func) == '%s.generic_visit' % selfn for later in fi.node.body[i + 1:] for n in ast.walk(later))
+        later_traversal = any(isinstance(n, ast.Call) and norm(n.func) == '%s.generic_visit' % selfn for later in fi.main_body[i + 1:] for n in ast.walk(later))
         if ok_iter and writes and later_traversal:
             return True
     return False
@@ -660,8 +660,8 @@ def rule_invalidation_tables(check, rule, precision_rule=None):
     rnode = rn.node
     rself = rn.params()[0][0]
     rec = [c for c in ast.walk(rnode) if isinstance(c, ast.Call) and isinstance(c.func, ast.Attribute) and c.func.attr == 'resolve_name'
-           and isinstance(c.func.value, ast.Name) and c.func.value.id == rself and c.args and isinstance(c.args[0], ast.Attribute)
-           and c.args[0].attr == 'value']
+           and isinstance(c.func.value, ast.Name) and c.func.value.id == rself and c.args
+           and isinstance(resolve_once(rnode, c.args[0]), ast.Attribute) and resolve_once(rnode, c.args[0]).attr == 'value']
     key = 'resolve_name|attribute-base-readonly'
     # (over-invalidation only costs precision -- discovery falls back -- so this obligation belongs to the agreement
     # property C06, not to the soundness property C05)
@@ -689,7 +689,7 @@ def rule_invalidation_tables(check, rule, precision_rule=None):
     # order inside process_Call: Python evaluates the explicit argument expressions of a call before it unpacks *args/**kwargs,
     # and resolving them is what notices `inner(kwargs.pop('x'), **kwargs)` / `inner(take(kwargs), **kwargs)`; the star
     # arguments must therefore be resolved *after* the explicit ones
-    body = fi.node.body
+    body = fi.main_body
     nodename = fi.params()[0][1]
     expl, stars_ = [], []
     for i_, st_ in enumerate(body):
@@ -767,7 +767,7 @@ def rule_invalidation_tables(check, rule, precision_rule=None):
                             witness='def sub(): inner(*args, **kwargs)  followed by  kwargs = {}  in the outer body')
     # deferred calls are processed after the main body, over the live worklist
     fi = repo.func(VIS + '.__init__')
-    loops = [n_ for n_ in fi.node.body if isinstance(n_, (ast.For, ast.While))]
+    loops = [n_ for n_ in fi.main_body if isinstance(n_, (ast.For, ast.While))]
     key = '__init__|revisit'
     selfn = fi.params()[0][0]
     def it_(l):
@@ -778,8 +778,8 @@ def rule_invalidation_tables(check, rule, precision_rule=None):
     if rev:
         l = rev[0]
         if it_(l) == '%s.to_revisit' % selfn:
-            body_first = any(isinstance(x, ast.For) and it_(x).endswith('.body') and fi.node.body.index(x) < fi.node.body.index(l)
-                             for x in fi.node.body if isinstance(x, ast.For) and x in fi.node.body)
+            body_first = any(isinstance(x, ast.For) and it_(x).endswith('.body') and fi.main_body.index(x) < fi.main_body.index(l)
+                             for x in fi.main_body if isinstance(x, ast.For) and x in fi.main_body)
             sets_ns = any(isinstance(x, ast.Assign) and any(norm(t) == '%s.namespace' % selfn for t in x.targets) for x in l.body)
             if body_first and sets_ns:
                 check.holds(rule, site_of(fi, l), 'deferred calls are processed after the main body, each in its own namespace, over the live list '
@@ -1120,12 +1120,12 @@ def rule_nested_scope_effects(check, rule):
     if deferred_attr is None:
         check.holds(rule, site_of(vc, vc.node), 'calls of nested scopes are not deferred', key=key, nontrivial=False)
         return
-    loops = [n for n in init.node.body if (isinstance(n, ast.For) and norm(n.iter).endswith('.' + deferred_attr))
+    loops = [n for n in init.main_body if (isinstance(n, ast.For) and norm(n.iter).endswith('.' + deferred_attr))
              or (isinstance(n, ast.While) and any(isinstance(x, ast.Attribute) and x.attr == deferred_attr for x in ast.walk(n.test)))]
     if not loops:
         check.inconclusive(rule, site_of(init, init.node), 'deferred calls (self.%s) are not processed in __init__' % deferred_attr, key=key)
         return
-    after = init.node.body[init.node.body.index(loops[-1]) + 1:]
+    after = init.main_body[init.main_body.index(loops[-1]) + 1:]
     recheck = None
     for st_ in after:
         for n in ast.walk(st_):
@@ -1307,7 +1307,7 @@ def rule_definition_time_expressions(check, rule):
             continue
         # position of the namespace push
         push = None
-        for i, st_ in enumerate(h.node.body):
+        for i, st_ in enumerate(h.main_body):
             if any(isinstance(n, ast.Assign) and any(norm(t).endswith('.namespace') for t in n.targets) and isinstance(n.value, ast.Call)
                    for n in ast.walk(st_)):
                 push = i
@@ -1315,7 +1315,7 @@ def rule_definition_time_expressions(check, rule):
         for field in DEF_TIME_FIELDS:
             key = 'deftime|%s|%s' % (h.name, field)
             visited_at = None
-            for i, st_ in enumerate(h.node.body):
+            for i, st_ in enumerate(h.main_body):
                 for n in ast.walk(st_):
                     if isinstance(n, (ast.For, ast.comprehension)) and any(isinstance(a, (ast.Attribute, ast.Constant)) and
                                                                            (getattr(a, 'attr', None) == field or getattr(a, 'value', None) == field)
@@ -1329,10 +1329,10 @@ def rule_definition_time_expressions(check, rule):
                                 'when the def/lambda is executed, and what they do to *args/**kwargs goes unnoticed' % (h.name, field), key=key,
                                 witness="def f(**kwargs):\n    def g(a=kwargs.pop('z')): ...\n    return inner(1, 2, **kwargs)   # still advertises z")
             elif push is not None and visited_at > push:
-                check.violation(rule, site_of(h, h.node.body[visited_at]), '%s visits %s after pushing the nested namespace: they are evaluated in the '
+                check.violation(rule, site_of(h, h.main_body[visited_at]), '%s visits %s after pushing the nested namespace: they are evaluated in the '
                                 'enclosing scope' % (h.name, field), key=key)
             else:
-                check.holds(rule, site_of(h, h.node.body[visited_at]), '%s visits %s in the enclosing scope' % (h.name, field), key=key)
+                check.holds(rule, site_of(h, h.main_body[visited_at]), '%s visits %s in the enclosing scope' % (h.name, field), key=key)
 
 
 def rule_builtins_access(check, rule):
@@ -1361,7 +1361,7 @@ def rule_builtins_access(check, rule):
 def _prescan_helper(fi):
     """the module-level helper a loop handler draws the names to invalidate from (`for name in helper(node): ...`)"""
     nodep = fi.params()[0][1] if len(fi.params()[0]) > 1 else None
-    for stmt in fi.node.body:
+    for stmt in fi.main_body:
         if isinstance(stmt, ast.For) and isinstance(stmt.iter, ast.Call) and isinstance(stmt.iter.func, ast.Name):
             helper = fi.module.funcs.get(stmt.iter.func.id)
             if helper is not None and stmt.iter.args and norm(stmt.iter.args[0]) == nodep and \
@@ -1419,7 +1419,7 @@ def rule_prescan_exhaustive(check, rule):
     for hp in helpers.values():
         check.analysed(hp)
         loop = None
-        for s in hp.node.body:
+        for s in hp.main_body:
             if isinstance(s, ast.For) and isinstance(s.iter, ast.Call) and norm(s.iter.func) in ('ast.walk', 'walk') and isinstance(s.target, ast.Name):
                 loop = s
         st = site_of(hp, hp.node)
